@@ -794,6 +794,16 @@ class FnBounds:
         if v.get("init") is not None:
             rn = fn.sn(v["init"])
             rl = self.lin(v["init"])
+            if rl is not None and len(rl[0]) > 1:
+                # x = a - b with b known exactly (an offsetof, a sizeof held in a local): fold the constant in, so that
+                # the relation becomes a difference constraint
+                terms, const = dict(rl[0]), rl[1]
+                for t, c in list(terms.items()):
+                    ub, lb = F.dist(t, ZERO, self.nonneg), F.dist(ZERO, t, self.nonneg)
+                    if ub is not None and lb is not None and ub != INF and lb != INF and ub == -lb and len(terms) > 1:
+                        const += c * ub
+                        del terms[t]
+                rl = (terms, const)
             if rl is not None and not any(self._mentions(t, name) for t in rl[0]):
                 self.add_le(F, lin_term(name), rl)
                 self.add_le(F, rl, lin_term(name))
